@@ -103,6 +103,20 @@ Proof.
                  exact rl_bpplus_ok|exact rl_rangesig_ok|exact rl_mgsig_ok|exact rl_clsag_ok].
 Qed.
 
+(* strings (UTF-8 validity as in String::from_utf8) and the multisig records *)
+Theorem C02_strings_multisig :
+  (forall s r, wf_string s -> dec_string (enc_string s ++ r) = (Ok s, r)) /\
+  (forall s r, is_utf8 s = false -> wf_vec 1 (fun _ => True) s -> fst (dec_string (enc_string s ++ r)) = Err EBad) /\
+  (forall m r, wf_klrki m -> dec_klrki (enc_klrki m ++ r) = (Ok m, r)) /\
+  (forall c r, wf_vec 32 wf_key c -> dec_multisig_out (enc_multisig_out c ++ r) = (Ok c, r)).
+Proof.
+  repeat split.
+  - exact (complete_pf (d := dec_string)).
+  - exact dec_string_rejects_invalid.
+  - exact (complete_pf (d := dec_klrki)).
+  - exact (complete_pf (d := dec_multisig_out)).
+Qed.
+
 (* non-vacuity: a concrete version-2 CLSAG-shaped transaction satisfies wf_tx (1 key input with ring 2, 1 output) *)
 Definition k32 : bytes := repeat x07 32.
 Definition ex_tx : tx :=
@@ -170,6 +184,13 @@ Check C02_reported_length :
   (forall x, rl_rangesig x = lenN (enc_rangesig x)) /\ (forall x, rl_mgsig x = lenN (enc_mgsig x)) /\
   (forall x, rl_clsag x = lenN (enc_clsag x)).
 
+Check C02_strings_multisig :
+  (forall s r, wf_string s -> dec_string (enc_string s ++ r) = (Ok s, r)) /\
+  (forall s r, is_utf8 s = false -> wf_vec 1 (fun _ => True) s -> fst (dec_string (enc_string s ++ r)) = Err EBad) /\
+  (forall m r, wf_klrki m -> dec_klrki (enc_klrki m ++ r) = (Ok m, r)) /\
+  (forall c r, wf_vec 32 wf_key c -> dec_multisig_out (enc_multisig_out c ++ r) = (Ok c, r)).
+
+Print Assumptions C02_strings_multisig.
 Print Assumptions C02_tx.
 Print Assumptions C02_block.
 Print Assumptions C02_prefix.
